@@ -176,6 +176,8 @@ func pseudoSort(t types.Type) (Sort, bool) {
 		return SBV1, true
 	case "intarray": // contents of a backing array of integers (bytes, runes)
 		return ArrSort(SInt, SInt), true
+	case "ref": // any reference-like value (pointer, function value, map)
+		return SInt, true
 	}
 	return "", false
 }
